@@ -5,6 +5,7 @@ go 1.26.0
 require (
 	github.com/anishathalye/porcupine v1.3.0
 	github.com/go-git/go-billy/v6 v6.0.0-alpha.2
+	github.com/go-git/go-git-fixtures/v6 v6.0.0-alpha.1
 	github.com/go-git/go-git/v6 v6.0.0
 )
 
